@@ -106,9 +106,14 @@ def spell_string(text: str, ch: Callable[[int], int], dims: set, allow_multiline
         lines = text.split("\n")
         return q3 + "\n" + "\n".join(pad + ln for ln in lines) + "\n" + " " * (4 * indent) + q3
     out = []
+    other = '"' if q == "'" else "'"
     for c in text:
         if c == q:
             out.append("\\" + q)
+        elif c == other and ch(4) == 0:
+            # an escape the chosen quote style does not need: \\' and \\" mean the quote character in BOTH styles
+            dims.add("unneeded_quote_escape")
+            out.append("\\" + other)
         elif c == "\n":
             out.append("\\n")
         else:
